@@ -532,6 +532,15 @@ MUTANTS = [
         }
 
 ''', new=''''''),
+    dict(id="c19-failed-sync-keeps-verdict", prop="C19", file="src/client.rs", expect="C19-R6",
+         what="D26 again: the checkout-failure arm discards the batch but keeps the statements and the verdict",
+         old='''                        self.forget_buffered_prepared_statements();
+                        self.reset_buffered_state();
+                        plugin_output = None;
+                    }
+''', new='''                        self.reset_buffered_state();
+                    }
+'''),
     # ------------------------------------------------------------------ C12
     dict(id="c12-raw-value", prop="C12", file="src/server.rs", expect="C12-R2",
          what="value interpolated without escaping again",
